@@ -196,3 +196,25 @@ Proof.
   repeat match goal with Hx : str_eqb s ?b = false |- _ => rewrite Hx; clear Hx end.
   rewrite bindM_prop, Hel. cbn [prop]. reflexivity.
 Qed.
+
+(** ---------- C17: positions of errors ---------- *)
+Lemma new_lisp_error_keeps_module_position payload c q :
+  has_module c = true -> new_lisp_error (VLispErr payload c) q = VLispErr payload c.
+Proof. intros H. simpl. now rewrite H. Qed.
+
+Lemma new_lisp_error_positions_anonymous payload c q :
+  has_module c = false -> new_lisp_error (VLispErr payload c) q = VLispErr payload q.
+Proof. intros H. simpl. now rewrite H. Qed.
+
+Lemma new_lisp_error_wraps_go_error msg q : new_lisp_error (VGoErr msg) q = VLispErr (VGoErr msg) q.
+Proof. reflexivity. Qed.
+
+(** an unbound symbol is reported at the symbol's own position *)
+Lemma eval_ast_unbound_symbol ev d s p env st :
+  env_get st env s p = Err (not_found s p) ->
+  eval_ast ev d (VSym s p) env st = (Err (VLispErr (VGoErr (s_ "symbol '" ++ s ++ s_ "' not found")) p), st).
+Proof.
+  intros H. unfold eval_ast. rewrite H. unfold not_found, lisp_goerr, new_lisp_error.
+  destruct (has_module p); reflexivity.
+Qed.
+
